@@ -58,9 +58,11 @@ def overwrite (new : Bytes) (old : Option Bytes) : Bytes :=
   | none => new
   | some d => new ++ d.drop new.length
 
-/-- `GRsetattr` on one attribute tree. `none` = FAIL (nothing changes). -/
-def grPut (writable : Bool) (l : List GAttr) (name : Bytes) (nt : Nat) (count : Int) (val : Bytes) : Option (List GAttr) :=
+/-- `GRsetattr` on one attribute tree of a file open for writing. `none` = FAIL (nothing changes).
+    A name that does not fit a Vdata field name is refused. -/
+def grPut (l : List GAttr) (name : Bytes) (nt : Nat) (count : Int) (val : Bytes) : Option (List GAttr) :=
   if !argsOk nt count then none else
+  if name.length > FIELDNAMELENMAX then none else
   let cnt := count.toNat
   let size := cnt * (ntSize nt).getD 0
   match find name (views l) with
@@ -68,16 +70,12 @@ def grPut (writable : Bool) (l : List GAttr) (name : Bytes) (nt : Nat) (count : 
     let g := l.getD i default
     if nt != g.nt then none
     else if size > GR_ATTR_THRESHHOLD then
-      -- not cacheable: written straight to the existing Vdata; an attribute that was never written has no Vdata (ref 0)
-      match g.disk with
-      | none => none
-      | some d => if !writable then none else
-        some (l.set i { g with len := cnt, data := none, disk := some (overwrite val (some d)), dataMod := false })
+      -- not cacheable: written straight to the Vdata (created now if the attribute was only cached so far)
+      some (l.set i { g with len := cnt, data := none, disk := some (overwrite val g.disk), dataMod := false })
     else some (l.set i { g with len := cnt, data := some val, dataMod := true })
   | none =>
     if size < GR_ATTR_THRESHHOLD then
       some (l ++ [{ name := name, nt := nt, len := cnt, data := some val, disk := none, dataMod := true, newAt := true }])
-    else if !writable then none
     else some (l ++ [{ name := name, nt := nt, len := cnt, data := none, disk := some val, dataMod := false, newAt := true }])
 
 /-- attribute loops of `GRend` (+ `GRIup_attr_data`) on a writable file -/
@@ -130,7 +128,9 @@ def grSetAttr (f : File) (o : Option Nat) (name : Bytes) (nt : Nat) (count : Int
   match listOf f o with
   | none => (f, .fail)
   | some l =>
-    match grPut f.writable l name nt count val with
+    -- `GRend` writes nothing to a file opened read-only: the call is refused
+    if !f.writable then (f, .fail) else
+    match grPut l name nt count val with
     | none => (f, .fail)
     | some l' => (setList f o l', .ok)
 
